@@ -40,7 +40,8 @@ RULE = (
     "(of any tree: copies of copies; <= 4 trees), add_symbol (elementary or of a class type, "
     "optionally with an equation), remove_symbol, add/remove (initial) equation, add_class "
     "(+ component of it elsewhere; by Class.add_class or, inside packages, by Tree.extend with a "
-    "'within' file in either direction), remove_class to a drawn tree, biased to classes that others "
+    "'within' file in either direction), remove_class, restore_class (Class.add_class of copy.deepcopy of "
+    "the class object of another tree that still has it) to a drawn tree, biased to classes that others "
     "reach through component types or extends, followed by flattening a drawn set of (tree, class) "
     "pairs (all / three / none) incl. classes that exist only in another tree.  non-trivial = after "
     "at least one deepcopy, an edit of class E in one tree is followed later by a flatten, in "
@@ -64,7 +65,7 @@ SOFT_BUDGET_S = {"quick": 150, "thorough": 2400}
 
 MAX_TREES = 4
 MAX_LEAVES = 60
-EDITS = ("add_symbol", "remove_symbol", "add_equation", "remove_equation", "add_class", "remove_class")
+EDITS = ("add_symbol", "remove_symbol", "add_equation", "remove_equation", "add_class", "remove_class", "restore_class")
 
 
 def jcopy(x):
@@ -412,6 +413,19 @@ class World:
                 self.labels.add("add_class:extends_existing")
             if any(c["cls"] not in L.BUILTIN for c in cdef["comps"]):
                 self.labels.add("add_class:component_of_existing")
+        elif kind == "restore_class":
+            # a class that exists in tree j only (removed here, or added there) is brought over as a deep copy
+            # of the class object itself: copy.deepcopy(T_j.P.X) added with Class.add_class
+            j = op[3]
+            jlib = self.lib(j)
+            src = self.locate(j, cid)
+            parent = jlib.cls(cid)["parent"]
+            pobj = tree if parent is None else self.locate(k, parent)
+            new = _copy.deepcopy(src)
+            pobj.add_class(new)
+            ids = subtree(jlib, cid)
+            data["classes"] += [jcopy(c) for c in self.trees[j][1]["classes"] if c["id"] in ids]
+            self.labels.add("restore_class:%s" % ("was_removed_here" if op[4] else "added_in_other_tree"))
         elif kind == "remove_class":
             obj = self.locate(k, cid)
             parent = lib.cls(cid)["parent"]
@@ -851,6 +865,49 @@ def make_machine(ctx):
                 self.observe(data)
 
         @rule(data=st.data())
+        def restore_class(self, data):
+            """Class.add_class(copy.deepcopy(<class object of another tree>)): a class that this tree
+            lacks (removed here, or added only there) is copied over from a tree that has it."""
+            if self.dead or len(self.world.trees) < 2:
+                return
+            w = self.world
+            cands = []
+            for k in range(len(w.trees)):
+                lk = w.lib(k)
+                for j in range(len(w.trees)):
+                    if j == k:
+                        continue
+                    lj = w.lib(j)
+                    for c in lj.data["classes"]:
+                        cid = c["id"]
+                        if cid in lk.by_id or c["kind"] == "package":
+                            continue
+                        if c["parent"] is not None and (c["parent"] not in lk.by_id or jcopy(lk.ancestors(c["parent"])) != jcopy(lj.ancestors(c["parent"]))):
+                            continue
+                        ids = subtree(lj, cid)
+                        if any(i in lk.by_id for i in ids):
+                            continue
+                        refs = set()
+                        for i in ids:
+                            refs |= set(uses(lj.cls(i)))
+                        if not all(r in ids or (r in lk.by_id and lk.cls(r)["parent"] == lj.cls(r)["parent"]) for r in refs):
+                            continue
+                        if len(lk.data["classes"]) + len(ids) > 13:
+                            continue
+                        cands.append((k, cid, j))
+            if not cands:
+                return
+            k, cid, j = data.draw(st.sampled_from(cands))
+            removed_here = any(op[0] == "remove_class" and op[1] == k and op[2] == cid for op in self.ops)
+            trial = L.Lib(jcopy(w.trees[k][1]))
+            trial.data["classes"] += [jcopy(c) for c in w.trees[j][1]["classes"] if c["id"] in subtree(w.lib(j), cid)]
+            trial = L.Lib(trial.data)
+            if max_leaves(trial) > MAX_LEAVES:
+                return
+            if self.do(["restore_class", k, cid, j, removed_here]):
+                self.observe(data, cid)
+
+        @rule(data=st.data())
         def flatten(self, data):
             if self.dead:
                 return
@@ -903,7 +960,7 @@ def replay(ctx, case):
 
 MANIFEST = dict(
     text="Stateful model-based search: up to four trees (a parsed generated library, deep copies, copies of "
-    "copies) are edited through the AST API (add/remove class - also by Tree.extend with a 'within' file - symbol, equation, initial equation) in "
+    "copies) are edited through the AST API (add/remove class - also by Tree.extend with a 'within' file or as a deep copy of another tree's class object - symbol, equation, initial equation) in "
     "drawn interleavings with deepcopy and flatten; each tree has an abstract model edited in lock-step, "
     "and flattening any class of any tree must agree with flattening a fresh parse of that tree's "
     "printed model (so edits are visible exactly in the tree they were made in, also through component "
